@@ -494,7 +494,7 @@ def _rand_disjoint(rng, k) -> list:
     return rs
 
 
-def random_doc(rng: random.Random) -> dict:
+def random_doc(rng: random.Random, terminal_rects: bool = True) -> dict:
     """a well-formed document larger than the enumerated universe (3..6 modules, up to 4 rectangles, up to 5 nets of
     arity up to 5); strictly inside the modelled language and the arithmetic bounds of Fpef.tla"""
     used: set = set()
@@ -542,7 +542,7 @@ def random_doc(rng: random.Random) -> dict:
                 md["flags"]["fixed"] = 1
             if kind == "fixedTerminal" or rng.random() < 0.7:
                 md["center"] = [rng.randint(0, 60), 1, rng.randint(0, 60), 1]
-            if rng.random() < 0.3:          # a terminal with rectangles (a pad with a shape): centre and area come from them
+            if terminal_rects and rng.random() < 0.3:          # a terminal with rectangles (a pad with a shape): centre and area come from them
                 rs = _rand_disjoint(rng, rng.randint(1, 2))
                 md["rects"] = {"form": "flat" if len(rs) == 1 and rng.random() < 0.5 else "list", "rs": [r + [GROUND] for r in rs]}
         mods.append(md)
@@ -691,6 +691,8 @@ def decide(ctx: Ctx, cases: list[dict]):
             ctx.violation(clause, {"doc": t["doc"], "embeddings": owners[key]}, detail,
                           {**feats, "event": ev["op"], "embedding": owners[key][0], "pattern": pattern})
         for (l, what) in v["drift"]:
+            if what == "terminal_with_rectangles_not_judged_by_C05":
+                continue        # expected here: such documents are C04's (round trip) and outside C05's universe
             ctx.model_drift(f"{t['events'][l - 1]['op']}: {what}")
     for t in [traces[k] for k in sorted(traces)[:3]]:
         ctx.sample({"trace": {k: t[k] for k in ("doc", "events")}, "embeddings": owners[t["id"]]})
